@@ -45,7 +45,7 @@ class ImputerProxy:
         self.clock.log.append(("impute.call", sub, dict(x_i), n_samples))
         res = self.inner.impute(feature_subset=feature_subset, x_i=x_i, n_samples=n_samples)
         inputs = [e[1] for e in self.clock.log[start:] if e[0] == "model"]
-        self.clock.log.append(("impute.ret", sub, inputs, list(res)))
+        self.clock.log.append(("impute.ret", sub, inputs, [dict(r) if isinstance(r, dict) else r for r in res]))   # (value snapshots)
         return res
 
 
@@ -118,12 +118,12 @@ def gen_cfg(rnd, explainer, exact, allow_discontinuous=False):
     cfg = {
         "explainer": explainer, "exact": exact, "dyn": dyn, "alpha": alpha,
         "d": d, "n_inner": rnd.choice([1, 1, 2, 3, 5]) if exact else rnd.choice([1, 1, 2, 3, 4]),
-        "names": rnd.choice(["str", "str", "str", "int", "int", "float", "float", "mixed", "spelled", "odd"]),
+        "names": rnd.choice(["str", "str", "str", "int", "int", "float", "float", "mixed", "spelled", "odd", "collide"]),
         "storage": gen_storage_spec(rnd),
         "imputer": rnd.choice(["joint", "joint", "product", "default", "custom", "library-default", "background"]),
         # 'background': a MarginalImputer bound to a data set the USER maintains, not to the explainer's own storage
         "frozen_first": rnd.choice([0, 0, 0, 1, 2, 6]),   # first calls made with update_storage=False (imputers that do not need the storage)
-        "model": rnd.choice(["scalar", "scalar", "multi", "grow", "ignore", "constant", "linear", "positional", "positional", "antisym", "coarse"]),
+        "model": rnd.choice(["scalar", "scalar", "multi", "grow", "ignore", "constant", "linear", "positional", "positional", "antisym", "coarse", "top2"]),
         "extras": rnd.choice([0, 0, 1, 2]),          # features present in the data but not explained (the model reads them)
         "warm_start": rnd.choice([0, 0, 0, 2]),      # observations put into the storage via update_storage() before the first call
         "loss": rnd.choice(["hash", "hash", "hash", "sq", "zero"]) if exact else rnd.choice(["sq", "abs", "sq", "zero"]),
@@ -138,6 +138,8 @@ def gen_cfg(rnd, explainer, exact, allow_discontinuous=False):
         "label_keys": rnd.choice(["int", "int", "str"]),                                     # keys of multi-label outputs
         "x_type": rnd.choice(["dict", "dict", "OrderedDict", "subclass", "Counter"]),                   # observations as dict subclasses
         "memo_model": rnd.random() < 0.25,
+        "reuse_out": rnd.random() < 0.2,               # the model overwrites ONE output dict (only with one inner sample per imputation)
+        "checkpoint": rnd.random() < 0.15,            # mid-stream the caller deep-copies everything (explainer, storage, imputer) and continues on the copy
         "positional_call": rnd.random() < 0.3,       # optional arguments passed POSITIONALLY in the documented order (x_i, y_i, n_inner_samples, update_storage)
         "hoisted": rnd.random() < 0.3,               # the caller keeps `f = explainer.explain_one` taken BEFORE the first call and uses it throughout
         "manual_updates": rnd.random() < 0.2,        # the user also feeds the storage through update_storage() between explanations                                                   # model hands out cached dict objects
@@ -210,6 +212,8 @@ class Scenario:
                             out_type=cfg.get("out_type", "plain"), label_keys=cfg.get("label_keys", "int"))
         if cfg.get("memo_model"):
             self.model.memo = {}
+        if cfg.get("reuse_out") and cfg["n_inner"] == 1 and not cfg.get("vary_calls") and cfg["imputer"] != "custom":
+            self.model.reuse_out = True
         self.loss = Losses(cfg["loss"], exact=cfg["exact"], clock=self.clock, out_type=cfg.get("out_type", "plain"))
         loss_fn = self.loss
         if strict_loss:
@@ -318,6 +322,16 @@ class Scenario:
         else:
             ret = fn(x, y, **kw)
         self.t += 1
+        if isinstance(ret, dict) and self.t % 3 == 0:
+            # the caller edits the dict it was handed (its own copy of the results): must not reach the explainer's state
+            keep = dict(ret)
+            for k_ in list(ret):
+                ret[k_] = "edited-by-caller"
+            ret["added-by-caller"] = -1
+            ret = keep
+            for view in (self.e.importance_values, self.e.variances):
+                if isinstance(view, dict):
+                    view.clear()
         return x, y, ret, list(self.clock.log)
 
     def snapshot(self):
